@@ -798,6 +798,14 @@ impl SortedUintVecBuilder {
             }
 
             let block_min = values[block_start];
+
+            // The sample field keeps only sample_width bits: a larger block minimum
+            // would be truncated silently and every value of the block read back wrong
+            if config.sample_width < 64 && (block_min >> config.sample_width) != 0 {
+                return Err(ZiporaError::invalid_data(
+                    format!("block minimum {} too large for sample_width {}", block_min, config.sample_width)
+                ));
+            }
             
             // Store block minimum in index
             Self::store_sample_static(&mut result.index, block_idx, block_min, config.sample_width)?;
